@@ -158,7 +158,7 @@ pub fn to_val(v: &RV) -> Val {
 }
 
 fn to_val_d(v: &RV, d: usize) -> Val {
-    if d > 12 {
+    if d > 96 {
         // same cap as p2::val_of (self-containing containers are excluded from the properties)
         return Val::Other("deep".into());
     }
